@@ -62,3 +62,25 @@ def replay_validate(run, groups, extra_driver_args=(), trace_cfg="Trace_XState.c
         if run.violations:
             break
     return total
+
+
+def engine_phase(run, num, ops=40, window=0, mc=True):
+    """Engine.tla: the production block pipeline (Miner.ProcBlock -> trySyncBlock -> downloadMissBlock through a stub
+    network -> batchConfirmBlock with the real single consensus -> Walk; Miner.mining; restarts). One pushed chain is
+    explained by PushBegin, silent micro-steps (XState actions) and PushEnd."""
+    if mc:
+        run.tlc_mc("Engine.tla", "MC_Engine.cfg", timeout=3000)
+    consts = {"MaxOps": ops, "MaxBlocks": 14, "Window": window}
+    behs = run.tlc_gen("Gen_Engine.tla", "Gen_Engine.cfg", num, ops + 30, name="genE", seed=run.seed * 1000 + 77, consts=consts)
+    cat = os.path.join(run.work, "genE", "catalog.json")
+    known = {k: KF_DESC.get(k, d) + " [" + d + "]" for k, d in vp.known_keys(run.pid).items()}
+    kf_consts = {k: "TRUE" for k in known if k.startswith("KF_")}
+    for k in OUTSIDE.get(run.pid, []):
+        kf_consts[k] = "TRUE"
+        known.setdefault(k, None)
+    tracecheck.replay_and_validate(run, behs, driver="engine-replay", driver_args=["-catalog", cat, "-window", str(window)],
+                                   trace_module="Trace_Engine.tla", trace_cfg="Trace_Engine.cfg", consts={"Window": window},
+                                   kf_consts=kf_consts or None, kf_desc={k: known.get(k) for k in kf_consts}, name="E", batch=200)
+    st = stats(behs)
+    run.cov["engine_op_mix"] = dict(st)
+    return behs, st
